@@ -222,17 +222,55 @@ DefaultOf(setting) ==
    both readings are admitted for the log record limits. *)
 GenericOptional(setting) == setting \in {"logrecord.attr_count", "logrecord.attr_len"}
 
+(* ------------------------------------------------------------------------ *)
+(* Options whose documentation gives ill-formed-looking values a meaning.     *)
+(* A struct-valued option (WithRawSpanLimits / WithSpanLimits) PROVIDES every *)
+(* field, also fields holding the zero value: an explicitly supplied zero is  *)
+(* still "provided by the highest-precedence source".                         *)
+(*   WithRawSpanLimits (doc): "used as-is ... zero disables the related       *)
+(*     resource, negative means unlimited; the zero-value SpanLimits disables *)
+(*     all span resources"  -> field kinds "zero" (valid, Z) / "neg" (U)       *)
+(*   WithSpanLimits (doc, deprecated): "any field zero or negative is replaced*)
+(*     with the default value for that field" -> kinds "nrzero" / "nrneg":     *)
+(*     the option provides the DEFAULT of that field (not the environment)    *)
+(*   WithAttributeCountLimit / WithAttributeValueLengthLimit (log): as raw    *)
+(* ------------------------------------------------------------------------ *)
+(*   kind "rawneg": a negative field of a struct / log option, documented as   *)
+(*     "no limit is applied" -> the option provides U                          *)
+DocSrc(setting, s) == IF s.k \in {"nrzero", "nrneg"} THEN Valid(DefaultOf(setting))
+                      ELSE IF s.k = "rawneg" THEN Valid("U") ELSE s
+DocSrcs(setting, srcs) == [i \in 1..Len(srcs) |-> DocSrc(setting, srcs[i])]
+
 (* A case: [fam, comp, setting, srcs] ; outcome strings *)
 AllowedFor(c) ==
   CASE c.fam = "endpoint" -> {EPOut(r) : r \in EndpointAllowed(c.comp, c.srcs)}
     [] c.fam = "sampler"  -> SamplerAllowed(c.srcs)
     [] c.fam = "scalar"   ->
-         Allowed(TypeOf(c.setting), c.srcs, DefaultOf(c.setting))
-         \cup (IF GenericOptional(c.setting) /\ Len(c.srcs) = 3
-               THEN Allowed(TypeOf(c.setting), SubSeq(c.srcs, 1, 2), DefaultOf(c.setting)) ELSE {})
+         LET srcs == DocSrcs(c.setting, c.srcs) IN
+         Allowed(TypeOf(c.setting), srcs, DefaultOf(c.setting))
+         \cup (IF GenericOptional(c.setting) /\ Len(srcs) = 3
+               THEN Allowed(TypeOf(c.setting), SubSeq(srcs, 1, 2), DefaultOf(c.setting)) ELSE {})
 
 IdealFor(c) ==
   CASE c.fam = "endpoint" -> {EPOut(r) : r \in EndpointResolve(c.comp, c.srcs)}
     [] c.fam = "sampler"  -> SamplerAllowed(c.srcs)
-    [] c.fam = "scalar"   -> {Resolve(TypeOf(c.setting), c.srcs, DefaultOf(c.setting))}
+    [] c.fam = "scalar"   -> {Resolve(TypeOf(c.setting), DocSrcs(c.setting, c.srcs), DefaultOf(c.setting))}
+
+(* ------------------------------------------------------------------------ *)
+(* Cross-setting clause (batch processors).  "Ignored in favour of defaults" *)
+(* = treated like unset: an ill-formed value WITHOUT a documented meaning in *)
+(* one variable must behave exactly like that variable being absent, also in *)
+(* what it does to the OTHER settings of the component.  How valid settings  *)
+(* interact (e.g. batch size clamped by the queue size) is NOT judged: the   *)
+(* clause is an equivalence on configurations,                               *)
+(*        Outcome(cfg) = Outcome(NormalizeCross(cfg)),                       *)
+(* checked metamorphically on the real component (both configurations are    *)
+(* executed and every observable of the component is compared).              *)
+(* A cross configuration = the four variables of the processor in the order  *)
+(* <<queue size, batch size, export timeout, schedule delay>>.               *)
+(* ------------------------------------------------------------------------ *)
+IllFormed(type, s) == s.k # "absent" /\ ~IsValid(type, s) /\ Meaning(type, s) = {}
+Norm(type, s) == IF IllFormed(type, s) THEN Absent ELSE s
+CrossTypes == <<"size", "size", "timeout", "delay">>
+NormalizeCross(srcs) == [i \in 1..4 |-> Norm(CrossTypes[i], srcs[i])]
 =============================================================================
